@@ -64,3 +64,31 @@ contract('Envelope.flatten#body', qual='Envelope.flatten', module=M, props=['C20
 bounded(['C20'], 'bounded/envelope_boundary.py',
         'assumed semantics hb_end() of _HEADER_BOUNDARY.search compared with the real compiled pattern, and parse()/flatten() '
         'body byte-exactness on the real Envelope, for all byte strings over {h, :, SP, CR, LF, x} up to length 7')
+
+
+# ---------------------------------------------------------------------------- Envelope.copy (C16 / C20)
+# Callers elsewhere use the assumed model `Envelope.copy` (contracts/slimta_policy.py); here the real body is checked
+# against the assumed contract of copy.deepcopy alone: the result is the deep copy, and `recipients` is replaced by
+# the argument object exactly when that argument is truthy (so copy([]) keeps the original recipients).
+def _deepcopy(st, args, kw):
+    from contracts.slimta_policy import _envelope_copy
+    v = args[0]
+    if v.t.kind != 'ref' or v.t.name != 'Envelope':
+        raise Undecided('copy.deepcopy(%r)' % (v.t,))
+    return _envelope_copy(st, [v], {})
+
+
+extern('copy.deepcopy', model=_deepcopy,
+       notes='copy.deepcopy(envelope): a new object graph, structurally equal, sharing no mutable object with the original')
+contract('Envelope.copy#body', qual='Envelope.copy', module=M, props=['C16', 'C20'],
+         params={'self': 'Envelope', 'new_rcpts': 'Opt[List[Str]]'}, returns='Envelope',
+         requires=['self.recipients != None', 'self.headers != None'],
+         ensures=['result != None', 'fresh(result)', 'result is not self', 'result.sender == self.sender',
+                  'result.headers != None and fresh(result.headers) and result.headers is not self.headers',
+                  # (the recipient list is shared with the original only if the caller passes that very list)
+                  'implies(new_rcpts is None or cast(new_rcpts, List[Str]) is not self.recipients, result.recipients is not self.recipients)',
+                  'implies(new_rcpts is not None and len(cast(new_rcpts, List[Str])) > 0, result.recipients is cast(new_rcpts, List[Str]))',
+                  'implies(new_rcpts is None or len(cast(new_rcpts, List[Str])) == 0, '
+                  '        fresh(result.recipients) and seq(result.recipients) == seq(self.recipients))',
+                  'seq(self.recipients) == old(seq(self.recipients))'],
+         modifies=['fresh'])
